@@ -47,6 +47,25 @@ CLAIMED = {
              "aiomqtt client) by a differential run over all interleavings of <= 4 arrivals and <= 4 reads.",
         design="7 C18", technique="Lean 4 proof (round-trip laws, filter characterisation, queue invariant over all interleavings) + generated except tuples + differential correspondence",
         note=NOTE_COMMON + "Partial: aiomqtt, the broker, asyncio.Queue and task cancellation are modelled, not verified; '#' filters are not modelled."),
+    "C05": dict(
+        text="Lean theorems select_spec (selectVer is the newest supported protocol whose major.minor does not exceed the reported "
+             "one, default 1.4; over the generated PROTOCOL_VERSIONS keys, all naturals), select_examples, coherent_history (the "
+             "reported version and the active protocol agree after every history of receives and sends, including rejected reports "
+             "and every error outcome, via the generic receive traversal), accepted_report / rejected_report, and the type-gate "
+             "theorems over the generated Internal/Stream tables; tied to get_protocol and the real Gateway by the complete version "
+             "grid, version reports in all orders mixed with traffic, and the gate over types -1..40 x 5 versions.",
+        design="7 C05", technique="Lean 4 proof (decision-list characterisation, invariant by generic traversal + induction over histories) + generated tables + differential correspondence",
+        note=NOTE_COMMON + "The comparison of release strings is delegated by the code to awesomeversion; the model covers the grammar "
+             "d+(.d+){1,3} and the rejected class, other accepted spellings ('latest', 'v2.1', '2') are unmodelled and not generated."),
+    "C17": dict(
+        text="Lean theorems reads_eq_lines / chunking_independent (for every byte stream, every chunking and every interleaving of "
+             "feeds and reads the results are exactly the newline-terminated lines, decoded or a transport error; over-long line and "
+             "end of stream are transport errors on every later read), read_lib_only, write_bytes_in_order, connect/disconnect/"
+             "not-connected theorems, with the except clauses read from the generated tables; tied to StreamTransport (direct, TCP, "
+             "serial flavours) over a real asyncio.StreamReader by all chunkings of short streams and a fault grid.",
+        design="7 C17", technique="Lean 4 proof (chunking independence of a framing function over all schedules) + generated except tuples + differential correspondence",
+        note=NOTE_COMMON + "Partial: asyncio.StreamReader.readuntil, the OS and UTF-8 decoding (a parameter in the theorems, "
+             "String.fromUTF8? in the driver) are modelled, not verified; lone surrogates in write are outside the model."),
 }
 
 PENDING_REASON = "check not built yet in this round (model and theorems in progress); see DESIGN.md section 7"
